@@ -22,7 +22,8 @@ def run(chk):
             "ASSUMED by the shape of the model, TESTED by c03-corr / c03-fuzz: p.Token is assigned only from p.Tokens[p.N] (parse.go:78); parse returns the node &token{Text:\"_\"} with the statements appended and joinFiles returns symAtPos(pos, \"_\") with the files' nodes (so package trees have the text \"_\"); fs.FS methods return; natives called through Func do not kill the process",
             "ASSUMED, NOT TESTED: Model/Cursor.v goat_table is a hand transcription of the control skeleton of parse.go / symbol.go (no hook exposes the cursor); termination of compile is argued from structural recursion on the finite tree plus c03_terminates_lookup / c03_terminates_peephole (no Coq model of compiler.compile exists); Go's text/scanner, strconv, fmt, io/fs are total",
             "EXCEPTED by the property: a script that does not terminate (watchdog timeouts in the run stage and children that die from unbounded script recursion are counted, not failed)",
-            "DEEP NESTING OF SOURCE (Go's stack overflow is fatal, not recoverable): the parser (doExpression, getType) and compiler.compile stop at 10000 levels ('nested too deeply': /repo fixes efe2cfa and 41e9d12; the first one did not cover chains of prefix operators and nested types, found by this command), and c03-deep confirms in child processes, on every run, that 4 M nested parentheses, a 4 M-term 1+1+...+1 chain, 4 M nested blocks, 4 M prefix operators and 4 M nested slice types return errors; a death by stack overflow in any family is a failing input of kind 'deep-nesting'.  The fuzz streams themselves nest to 20000 at most.  Terminating scripts that exhaust memory or recurse ~450 K deep are the running script's own resource use and are listed as candidates only",
+            "DEEP NESTING OF SOURCE (Go's stack overflow is fatal, not recoverable): /repo bounds every recursion of the front end at 10000 levels (efe2cfa: parser.Expression and compiler.compile; 41e9d12: prefix-operator chains and nested types).  c03-deep checks in child processes, on every run, that 4 M nested parentheses, a 4 M-term 1+1+...+1 chain, 4 M prefix operators, 4 M nested blocks and 4 M nested slice types return 'nested too deeply' errors; a child that dies of stack overflow there is a failing input of kind 'deep-nesting'.  The fuzz streams nest to 20000.  Terminating scripts that exhaust memory or recurse ~450 K deep are the running script's own resource use and are listed as candidates only",
+            "CYCLIC DATA: the fuzz contains terminating scripts that build values containing themselves (slices, slices of slices to depth 4, maps, struct rings, mixed) and render them through println / print / fmt.Print / Println / Sprint / Sprintf / string concatenation / panic(v) / errors.New, by returning them to the host (the child prints every value Eval / Call / Func hand back) and by leaving them on the stack of a Load ('unexpected returns: %v'); a mutation operator splices such fragments into other programs.  A child killed by a fatal error whose innermost frames do not cycle through VM.exec (a recursion of the host side, e.g. the value stringer) is a failing input of kind 'host-dies', minimised with one child per candidate; only a recursion of the script itself is excepted",
         ])
     # the recursion-depth experiment has no pass/fail of its own: copy its table into the evidence
     st = os.path.join(V.CASES, chk.pid, "C03_deep_stats.json")
